@@ -237,6 +237,23 @@ def scn_budget(T, case):
     C08.scn_options(Renamed(T, "C08.", "C14.backend."), case)
 
 
+# ------------------------------------------------------------------------------------ the gradient solve never raises
+def cases_solve(tier):
+    from contracts import C02
+
+    return C02.cases_svd_under(tier)
+
+
+def scn_solve(T, case):
+    """'never an unrelated internal exception': with failed perturbations a realization can be left with fewer perturbations than
+    variables (perturbation_min_success allows it); the least-squares solve must still return (C02's bounded scenario, under this
+    property's prefix)."""
+    from contracts import C02
+    from contracts.reuse import Renamed
+
+    C02.scn_svd_under(Renamed(T, "C02.", "C14.gradient_solve."), case)
+
+
 # ------------------------------------------------------------------------------------ what the plan steps hand on (shared contract)
 def cases_steps(tier):
     from contracts import stepcontract
@@ -258,6 +275,7 @@ SCENARIOS = [
     Scenario("calculate_raises_clause", scn_calculate, cases_calculate, {"quick": 3, "thorough": 20}),
     Scenario("validated_success_threshold", scn_threshold, cases_threshold, {"quick": 2, "thorough": 10}),
     Scenario("function_budget_stays_with_the_driver", scn_budget, cases_budget, {"quick": 1, "thorough": 2}),
+    Scenario("gradient_solve_with_fewer_perturbations_than_variables_bounded", scn_solve, cases_solve, {"quick": 10, "thorough": 100}),
     Scenario("plan_steps_hand_over", scn_steps, cases_steps, {"quick": 1, "thorough": 2}),
 ]
 
